@@ -266,6 +266,41 @@ class ClsSourceRaisingClose(ClsSource):
         raise CloseFailure(f"source {self.idx}")
 
 
+class ClsSourceLazy(ClsSource):
+    """... that is only ready once __aiter__ has been called on it (an iterator may do its set-up there): whoever
+    iterates it has to go through the protocol, even though it is its own iterator"""
+
+    def __init__(self, rec, idx, items):
+        super().__init__(rec, idx, items)
+        self.ready = False
+
+    def __aiter__(self):
+        self.ready = True
+        return self
+
+    async def __anext__(self):
+        if not self.ready:
+            raise RuntimeError("__anext__ before __aiter__: the iterator was not set up")
+        return await super().__anext__()
+
+
+class ClsSourceDelegating:
+    """An asynchronous iterator that hands everything but the iteration protocol on to the object it wraps -- its
+    `aclose` exists, but only through __getattr__ (a static look at the class does not find it)."""
+
+    def __init__(self, inner):
+        self._inner = inner
+
+    def __aiter__(self):
+        return self
+
+    def __anext__(self):
+        return self._inner.__anext__()
+
+    def __getattr__(self, name):
+        return getattr(self._inner, name)
+
+
 class ClsSourceNoClose(_ClsBase):
     """... without aclose: nothing to release"""
 
@@ -376,6 +411,12 @@ def make_source(flavour, rec, idx, items):
     if flavour == "cls":
         s = ClsSource(rec, idx, items)
         return s, s
+    if flavour == "clslazy":
+        s = ClsSourceLazy(rec, idx, items)
+        return s, s
+    if flavour == "clsgetattr":
+        s = ClsSource(rec, idx, items)
+        return ClsSourceDelegating(s), s
     if flavour == "clsraiseclose":
         s = ClsSourceRaisingClose(rec, idx, items)
         return s, s
@@ -404,7 +445,7 @@ ASYNC_ITER_FLAVOURS = ("cls", "agen")  # flavours that own something to release
 
 # --------------------------------------------------------------------------- callables
 
-FLAVOURS_CALL = ("asyncdef", "def", "partial", "obj", "aw", "cls", "objfalsy", "defwraps")
+FLAVOURS_CALL = ("asyncdef", "def", "partial", "obj", "aw", "cls", "objfalsy", "defwraps", "clsnew")
 FLAVOURS_SYNC_ONLY = ("mixed", "mixed2")   # for asynctools.sync: calls of one function differ in kind
 
 
@@ -448,6 +489,17 @@ def make_callable(flavour, rec: Recorder, name, sem=None):
         await suspend(rec.acct, ("call", name), rec.susp)
         return body(*a)
 
+    if flavour == "clsnew":
+        # a class used as a plain function: calling it computes the result in __new__ and hands that back; that its
+        # instances would have an `async def __call__` says nothing about calling the class
+        class Factory:
+            def __new__(cls, *a):
+                return body(*a)
+
+            async def __call__(self, *a):
+                raise AssertionError("instances are never made, let alone called")
+
+        return Factory
     if flavour == "defwraps":
         # a plain function that *wraps* a coroutine function (functools.wraps sets __wrapped__) but computes
         # its result synchronously: what counts is what the call returns, not what it wraps
